@@ -122,12 +122,16 @@ def pickMin {K R : Type} [Sub R] (nsq : K → R) (one : R) (le : R → R → Boo
     | none => some (l, t)
     | some (l', t') => if le l' l then some (l', t') else some (l, t)
 
-/-- `product_state / np.linalg.norm(product_state)`; `sqrt` and the embedding `R → K` are
-parameters. -/
+/-- Sum of a list. -/
+def sumL {R : Type} [Add R] [OfNat R 0] : List R → R
+  | [] => 0
+  | x :: xs => x + sumL xs
+
+/-- `product_state / np.linalg.norm(product_state)` (`norm = sqrt(Σ|x|²)`); `sqrt` and the
+embedding `R → K` are parameters. -/
 def normalise {K R : Type} [Add R] [OfNat R 0] [Div K] (nsq : K → R) (sqrt : R → R) (emb : R → K)
     (v : List K) : List K :=
-  let nrm := sqrt (sumTo v.length fun i => match v[i]? with | some x => nsq x | none => 0)
-  v.map (· / emb nrm)
+  v.map (· / emb (sqrt (sumL (v.map nsq))))
 
 /-- What `geometric_entanglement(state, True, True)` returns, given the four Tucker results:
 `(min_fidelity_loss, product_state, factors)`. -/
